@@ -4,6 +4,7 @@
    descriptions give the model leg of those sample operations; they are specifications of the
    expected observable result, not mirrors of the container code (C01/C04/C06/C08/C10/C11 own that). *)
 From Tetl Require Import Lib.Base C13.Spec C11.Model.
+From Tetl Require C18.Model.
 Local Open Scope Z_scope.
 
 (* etl::to_chars(first, last, v, 10): decimal digits, '-' for negative values *)
@@ -45,3 +46,49 @@ Definition work (s : list Z) : list Z * Z * Z :=
 Definition istr (a b : list Z) : list Z := a ++ b ++ [33].
 
 Definition civil := civil_from_days_m.
+
+(* <cctype> in the "C" locale for c in -1 .. 255 (descriptions shared with C18): the twelve
+   classification results and tolower / toupper *)
+Definition ctype_all (c : Z) : list Z :=
+  let o (x : option Z) := match x with Some v => v | None => -2 end in
+  [C18.Model.isalnum_m c; C18.Model.isalpha_m c; C18.Model.isblank_m c; C18.Model.iscntrl_m c;
+   C18.Model.isdigit_m c; C18.Model.isgraph_m c; C18.Model.islower_m c; C18.Model.isprint_m c;
+   C18.Model.ispunct_m c; C18.Model.isspace_m c; C18.Model.isupper_m c; C18.Model.isxdigit_m c;
+   o (C18.Model.tolower_m c); o (C18.Model.toupper_m c)].
+
+(* string_view: sign of compare, rfind (npos = -1), starts_with, ends_with, find_first_of *)
+Fixpoint rfind_down (h n : list Z) (i : nat) : Z :=
+  if is_prefix n (skipn i h) then Z.of_nat i
+  else match i with O => -1 | S k => rfind_down h n k end.
+Definition sv_rfind (h n : list Z) : Z :=
+  if (length h <? length n)%nat then -1 else rfind_down h n (length h - length n).
+Fixpoint first_of (h set : list Z) (i : Z) : Z :=
+  match h with
+  | [] => -1
+  | c :: t => if existsb (Z.eqb c) set then i else first_of t set (i + 1)
+  end.
+Definition b2z' (b : bool) : Z := if b then 1 else 0.
+Definition sv_ops (a b : list Z) : list Z :=
+  [lex_cmp a b; sv_rfind a b; b2z' (is_prefix b a);
+   b2z' (is_prefix (rev b) (rev a)); first_of a b 0].
+
+(* chrono: days -> year_month_day -> days *)
+Definition civil_back (z : Z) : option Z :=
+  match civil_from_days_m z with
+  | Some (y, m, d) => days_from_civil_m y m d
+  | None => None
+  end.
+
+(* algorithms over the bytes of a row: reverse; index of the first 97 (or -1); the maximum (or -1);
+   is_sorted; rotate left by one *)
+Fixpoint sortedb (l : list Z) : bool :=
+  match l with
+  | a :: ((b :: _) as t) => (a <=? b) && sortedb t
+  | _ => true
+  end.
+Definition algo2 (s : list Z) : list Z * Z * Z * Z * list Z :=
+  (rev s,
+   match index_of 97 s 0 with Some i => i | None => -1 end,
+   fold_right Z.max (-1) s,
+   b2z' (sortedb s),
+   match s with a :: t => t ++ [a] | [] => [] end).
